@@ -544,6 +544,10 @@ func c05Run(c *core.Ctx, b core.Batch) {
 	r := c.Rand
 	for cfgi := 0; cfgi < p.N; cfgi++ {
 		specs := c05RandSpecs(r)
+		if cfgi%8 == 4 {
+			// a service whose only resource is the one named like the service itself
+			specs = []c05HandlerSpec{{Pattern: "", Access: cfgi%16 == 4, Get: true, Call: []string{"set", "*"}, Auth: []string{"login"}}}
+		}
 		st := &c05State{outcome: "marker"}
 		rg := newRig("test", func(s *res.Service) {
 			c05Register(s, specs, st, cfgi%4 >= 2)
@@ -557,8 +561,13 @@ func c05Run(c *core.Ctx, b core.Batch) {
 		})
 		rg.C.NoGoID = true
 		if err := rg.start(); err != nil {
-			c.Inconclusive("service failed to start: " + err.Error())
-			return
+			if strings.Contains(err.Error(), "timeout waiting") {
+				c.Inconclusive("service failed to start: " + err.Error())
+				return
+			}
+			// every configuration has a get handler: there is something to serve
+			c.Violation("C05/serve-failed", "Serve failed for a service with handlers: "+err.Error(), map[string]interface{}{"handlers": specs, "ownership": []string{"default", "level by level with *", ">"}[cfgi%3], "subscriptions": subjectsOf(rg.C.Subs())})
+			continue
 		}
 		cfgKey := fmt.Sprintf("%d/%d", p.Shard, cfgi)
 		// meanwhile another goroutine looks resources up (as Service.Resource, With and store
@@ -598,6 +607,15 @@ func c05Run(c *core.Ctx, b core.Batch) {
 								return true
 							}
 						}
+					}
+				}
+				if cfgi%3 == 0 && !malformed {
+					// default ownership: a service owns what its handlers can serve, so a request
+					// some registered handler would get must reach one of its subscriptions
+					if wm, _, _, rname, _, _, _ := c05Reference(specs, subject); wm != "" {
+						c.Violation("C05/handled-request-not-delivered:"+subject[:strings.IndexByte(subject, '.')], fmt.Sprintf("handler %q is registered for %q, the ownership is the default, but request %s reaches none of the service's subscriptions", wm, rname, subject),
+							map[string]interface{}{"handlers": specs, "subject": subject, "subscriptions": subjectsOf(rg.C.Subs())})
+						return true
 					}
 				}
 				return true // not a request the service subscribed to
